@@ -348,5 +348,30 @@ CHECKS["C15"] = dict(
     legs=[dict(name="kill-points", test="^TestKillPoints$", quick=dict(n=16, procs=4, timeout=600), thorough=dict(n=800, procs=12, timeout=3000))],
 )
 
+CHECKS["C05"] = dict(
+    level="exploration",
+    technique="stateful property testing (rapid) of 2-4 real brokers over a simulated gossip transport whose schedule (pick / deliver / periodic full state / peer "
+              "offline / reconnect) is part of the generated history; oracle: routing tables and deliveries against a model of live local subscribers",
+    level_text="Histories of <=40 client operations (connect at any broker, subscribe, unsubscribe, disconnect on a/, a/b/, c/) interleaved with transport "
+               "operations, full-mesh and line topologies, in five schedule classes: A (everything delivered before the next client operation), A' (arbitrary "
+               "pick/deliver delays, per-link FIFO, no two payloads in one sender bucket), B (unrestricted: payloads coalesce in the sender), C (A' + periodic "
+               "full-state gossip racing the operations), D (A' + peers garbage-collected and reconnected). At every check gossip is driven to quiescence and "
+               "for every broker and channel the remote subscribers in its index must equal the brokers with a live matching local subscriber; a QoS-1 probe "
+               "publish must reach every matching client cluster-wide once, with exactly one forwarded frame per other broker that has a subscriber and none to "
+               "the others. Classes A and A' are asserted strictly, as are 'a full-state exchange with nothing in flight changes nothing' and 'no route to a "
+               "garbage-collected peer is left'; other failures in B, C, D must match a listed finding.",
+    level_note="Trusted: the transcription of mesh's gossipSender and gossipChannel relay logic (vkit/gsender.go, vkit/simnet.go, ~250 lines; full-mesh and line "
+               "topologies), which replaces the real mesh router, TCP and topology gossip; crdt.Now is a harness counter. 'Once quiesced' is checked, not "
+               "'eventually quiesces'. Outside A/A' the implementation is known to violate the property (listed findings), so there the check separates "
+               "'fails as listed' from 'fails differently'.",
+    rule="rapid-generated histories per class; non-trivial = a check reached with >=2 brokers holding subscribers on one channel after >=1 unsubscribe/disconnect; "
+         "distinct = distinct case value.",
+    legs=[dict(name="class-A", test="^TestClassA$", quick=dict(n=60, procs=3, batch=20, timeout=600), thorough=dict(n=4000, procs=6, batch=50, timeout=3000)),
+          dict(name="class-A-prime", test="^TestClassAPrime$", quick=dict(n=60, procs=3, batch=20, timeout=600), thorough=dict(n=4000, procs=6, batch=50, timeout=3000)),
+          dict(name="class-B", test="^(TestProbes|TestClassB)$", quick=dict(n=20, procs=1, batch=20, timeout=600), thorough=dict(n=800, procs=2, batch=50, timeout=3000)),
+          dict(name="class-C", test="^TestClassC$", quick=dict(n=30, procs=2, batch=15, timeout=600), thorough=dict(n=1500, procs=3, batch=50, timeout=3000)),
+          dict(name="class-D", test="^TestClassD$", quick=dict(n=30, procs=2, batch=15, timeout=600), thorough=dict(n=1500, procs=3, batch=50, timeout=3000))],
+)
+
 for _k in CHECKS:
     NOT_APPLICABLE.pop(_k, None)
